@@ -28,13 +28,14 @@ import (
 
 type c31Mon struct {
 	cluster.BaseMonitor
-	r        *crun
-	maxSeen  int
-	frames   int
-	bundles  int
-	maxTxs   int
-	maxRatio float64
+	r          *crun
+	maxSeen    int
+	frames     int
+	bundles    int
+	maxTxs     int
+	maxRatio   float64
 	challenges int
+	muteSync   bool
 }
 
 func (m *c31Mon) OnSend(from, to *cluster.SNode, data []byte) [][]byte {
@@ -44,6 +45,10 @@ func (m *c31Mon) OnSend(from, to *cluster.SNode, data []byte) [][]byte {
 		m.maxSeen = len(data)
 	}
 	typ := p2p.SimMessageType(data)
+	if m.muteSync && (typ == p2p.PeerMessageTypeFinalizedTransactionBundle || typ == p2p.PeerMessageTypeBatchSnapshotFinalization) && len(data) <= p2p.TransportMessageMaxSize {
+		m.r.out.Evals++
+		return [][]byte{} // measured, then withheld: the other nodes are not part of the quick scenario
+	}
 	if len(data) > p2p.TransportMessageMaxSize {
 		c.Violate("C31", fmt.Sprintf("message-exceeds-transport-limit:type-%d", typ), fmt.Sprintf("n%d built a type %d message of %d bytes for n%d (limit %d)", from.Idx, typ, len(data), to.Idx, p2p.TransportMessageMaxSize), from)
 		return [][]byte{}
@@ -119,7 +124,9 @@ func c31Exec(p *harness.Plan) *harness.Outcome {
 		r.out.ToolError = err.Error()
 		return r.out
 	}
-	mon := &c31Mon{r: r}
+	quick := p.P("stop_after_proposal", 0) == 1
+	targetIdx := r.node(int(p.P("target", 0))).Idx
+	mon := &c31Mon{r: r, muteSync: quick}
 	c.AddMonitor(mon)
 	inj, err := newInjector(c, core.NewRng(core.SplitMix64(p.Seed^0x131)))
 	if err != nil {
@@ -172,6 +179,9 @@ func c31Exec(p *harness.Plan) *harness.Outcome {
 			return nil
 		}
 		for to := 0; to < inj.n; to++ {
+			if quick && to != targetIdx {
+				continue
+			}
 			inj.deliver(c.External(), c.Nodes[to], it.tx, it.snap, time.Duration(to)*time.Millisecond)
 		}
 		return it
@@ -188,7 +198,14 @@ func c31Exec(p *harness.Plan) *harness.Outcome {
 	}
 	ready := func() bool {
 		for _, it := range setup {
-			if it == nil || !c.FinalizedEverywhere(it.tx.PayloadHash()) {
+			if it == nil {
+				return false
+			}
+			if quick {
+				if !c.FinalizedOn(c.Nodes[targetIdx], it.tx.PayloadHash()) {
+					return false
+				}
+			} else if !c.FinalizedEverywhere(it.tx.PayloadHash()) {
 				return false
 			}
 		}
@@ -241,7 +258,11 @@ func c31Exec(p *harness.Plan) *harness.Outcome {
 		if c.Halt {
 			break
 		}
-		if _, err := c.Submit(target, b); err == nil {
+		if quick {
+			// unauthenticated peer bundle straight into the cache queue (one validation pass less)
+			c.Inject(c.External(), target, buildTxBundle([]*common.VersionedTransaction{b}, false), 0)
+			admitted++
+		} else if _, err := c.Submit(target, b); err == nil {
 			admitted++
 			r.accepted = append(r.accepted, b.PayloadHash())
 		} else {
@@ -271,8 +292,9 @@ func c31Exec(p *harness.Plan) *harness.Outcome {
 	r.out.Probes["big_transactions_finalized"] += fin
 	r.out.Probes["frames_measured"] += mon.frames
 	r.out.Probes["bundle_frames"] += mon.bundles
-	r.out.Probes["max_frame_bytes"] = max(r.out.Probes["max_frame_bytes"], mon.maxSeen)
-	r.out.Probes["max_transactions_in_one_frame"] = max(r.out.Probes["max_transactions_in_one_frame"], mon.maxTxs)
+	if mon.maxSeen > p2p.TransportMessageMaxSize/2 {
+		r.out.Probes["runs_with_a_frame_above_half_the_limit"]++
+	}
 	r.out.Probes["signed_bytes_offered"] += signedTotal
 	r.out.Probes["payload_bytes_offered"] += payloadTotal
 	relabelPanic(r, "C31")
@@ -298,8 +320,8 @@ func init() {
 		Assume:     append([]string{"QUIC stream framing (Send / receiveWithLimit) is a stub: only the size rule it enforces is applied at the seam"}, clusterAssume...),
 		Gen:        c31Gen,
 		Exec:       c31Exec,
-		MaxWorkers: 4, WorkerProcs: 4,
-		QuickRuns:  4, ThoroughRuns: 32,
+		MaxWorkers: 2, WorkerProcs: 8,
+		QuickRuns: 2, ThoroughRuns: 12,
 		QuickWall: 200 * time.Second, ThoroughWall: 25 * time.Minute,
 	})
 }
